@@ -48,9 +48,9 @@ func VerifC08FailingStatement() {
 	tx.Flags.Quiet = true
 	proc := NewProcessor(tx)
 	scope := proc.ReferenceScope
-	const n = 3
+	n := verifBound(3, 5)
 	rows := make([][]value.Primary, n)
-	var bvals [n]int64
+	bvals := make([]int64, n)
 	for i := 0; i < n; i++ {
 		var a value.Primary
 		// divisors range over [-3, 3]: symbolic 64-bit division is out of the solver's reach, and
